@@ -146,7 +146,9 @@ ObsOK == (l > 1 /\ sync /\ Alive(fs, ss, es) /\ Rec[l - 1].ret[1] # "panic") =>
 Accepted ==
   /\ PrintT(<<"@@S", ToJson([lines |-> N, consumed |-> TLCGet("stats").diameter - 1, flagged |-> TLCGet(1), mode |-> Mode])>>)
   /\ TLCGet(1) = 0
+  (* the trace stops being followed where a stage automaton was not explored (exploration cap) or
+     has no successor (it panicked standalone): reported as "unbounded" = inconclusive, not a violation *)
   /\ ( TLCGet("stats").diameter = N + 1
-       \/ (PrintT(<<"@@M", ToJson([prop |-> "C18", kind |-> "trace-not-consumed", comp |-> Comp,
+       \/ (PrintT(<<"@@M", ToJson([prop |-> "C18", kind |-> "unbounded", comp |-> Comp,
                                    consumed |-> TLCGet("stats").diameter - 1, lines |-> N])>>) /\ FALSE) )
 =============================================================================
